@@ -61,17 +61,20 @@ func (x *Exec) assumeClause(st *State, env *Env, cl *Clause, bind func(string, V
 		return x.evalBool(st, env, cl.expr)
 	}
 	e2 := env.child()
+	var tuple []*Term
 	for _, v := range cl.vars {
 		if !v.ex {
 			fail("exists and forall cannot be mixed in one clause: %s", cl.text)
 		}
 		w := freshVar("wit$"+v.name, SInt)
 		st.wits = append(st.wits[:len(st.wits):len(st.wits)], w)
+		tuple = append(tuple, w)
 		e2.vars[v.name] = w
 		if bind != nil {
 			bind(v.name, w)
 		}
 	}
+	st.witTuples = append(st.witTuples[:len(st.witTuples):len(st.witTuples)], tuple)
 	return x.evalBool(st, e2, cl.expr)
 }
 
@@ -372,6 +375,38 @@ func (x *Exec) instantiate(st *State) []*Term {
 			if os.Getenv("VERIF_DEBUG_INST") != "" {
 				fmt.Printf("inst %s: cands=%v total=%d apps=%d\n", sc.text[:min(len(sc.text), 50)], func() []int { var n []int; for _, c := range cands { n = append(n, len(c)) }; return n }(), total, len(apps))
 			}
+			if total > 100 && len(sc.vars) >= 3 {
+				// many integer variables: the cartesian product of the candidates drowns the solver
+				// (or is over the cap and gives nothing). Instantiate tuple-wise instead: at the
+				// arbitrary values of the goal (matched by name, else by position) and at the
+				// witness tuples of the existential clauses assumed on this path.
+				if tuples := x.alignedTuples(st, sc); tuples != nil {
+					cands = nil
+					for _, tp := range tuples {
+						env := sc.env.child()
+						key := sc.text
+						for i, v := range sc.vars {
+							env.vars[v.name] = tp[i]
+							key += fmt.Sprintf("|%d,", tp[i].id)
+						}
+						if x.instSeen(st, key) {
+							continue
+						}
+						if sc.st != nil {
+							tmp := sc.st.fork()
+							tmp.apps = st.apps
+							tmp.ax = st.ax
+							t := x.evalBool(tmp, env, sc.expr)
+							st.apps = tmp.apps
+							st.ax = tmp.ax
+							out = append(out, t)
+						} else {
+							out = append(out, x.evalBool(st, env, sc.expr))
+						}
+					}
+					continue
+				}
+			}
 			if total == 0 || total > 400 {
 				continue
 			}
@@ -422,6 +457,50 @@ func (x *Exec) instantiate(st *State) []*Term {
 		}
 		if len(st.apps) == len(apps) {
 			break
+		}
+	}
+	return out
+}
+
+// alignedTuples: for a schema whose variables are all integers, the tuples it is instantiated at
+// when the product of the candidates is too large; nil when the schema has another shape.
+func (x *Exec) alignedTuples(st *State, sc *schema) [][]*Term {
+	n := len(sc.vars)
+	for _, v := range sc.vars {
+		t := x.resolveType(sc.env.pkg, v.typ)
+		if vs, ok := sortOf(t); !ok || vs != SInt {
+			return nil
+		}
+	}
+	out := [][]*Term{}
+	// the goal's arbitrary values, by name
+	byName := make([]*Term, 0, n)
+	for _, v := range sc.vars {
+		if tv, ok := x.curSkolems[v.name].(*Term); ok && tv.sort == SInt {
+			byName = append(byName, tv)
+		}
+	}
+	if len(byName) == n {
+		out = append(out, byName)
+	} else {
+		var names []string
+		for nm, sv := range x.curSkolems {
+			if tv, ok := sv.(*Term); ok && tv.sort == SInt {
+				names = append(names, nm)
+			}
+		}
+		if len(names) == n {
+			sort.Strings(names)
+			tp := make([]*Term, n)
+			for i, nm := range names {
+				tp[i] = x.curSkolems[nm].(*Term)
+			}
+			out = append(out, tp)
+		}
+	}
+	for _, tp := range st.witTuples {
+		if len(tp) == n {
+			out = append(out, tp)
 		}
 	}
 	return out
@@ -1324,6 +1403,12 @@ func (x *Exec) verifyContract(ct *Contract) (err error) {
 				}
 				x.oblige(f.st, "assert."+lbl, t, cl.text)
 				f.st.assume(t)
+				if len(cl.vars) > 0 && !hasExists(cl) {
+					// a universally quantified assertion was proved for arbitrary values (skolems):
+					// from here on it is an instantiable fact about the state it was proved in
+					x.schemaCtr++
+					f.st.schemas = append(f.st.schemas, &schema{vars: cl.vars, expr: cl.expr, env: f.env, st: f.st.fork(), text: fmt.Sprintf("assert.%s@%d:%s", lbl, x.schemaCtr, cl.text)})
+				}
 				if f.st.labelled == nil {
 					f.st.labelled = map[string]*Term{}
 				}
